@@ -87,17 +87,33 @@ def main(argv):
         def sat(solver, *a):
             t = _t.perf_counter()
             try:
-                return _sat(solver, *a)
+                full_ms = _ss.context_statespace().smt_timeout or int(per_path * 500)
+            except Exception:  # noqa
+                full_ms = int(per_path * 500)
+            try:
+                # stage 1: the incremental solver with a short leash (queries normally take milliseconds)
+                solver.set(timeout=min(5000, full_ms))
+                try:
+                    return _sat(solver, *a)
+                finally:
+                    solver.set(timeout=full_ms)
             except _ss.UnknownSatisfiability:
-                # z3's incremental solver (push/pop with learned state) occasionally runs into the per-query timeout on a
-                # query that a fresh solver decides in milliseconds: ask a fresh solver before giving the path up
+                # z3's incremental solver (push/pop with learned state) occasionally gets stuck on a query that a fresh solver
+                # decides in milliseconds. stage 2: a fresh solver with the same assertions and the full per-query timeout;
+                # stage 3: the incremental solver again with the full timeout (the behaviour before the stages were added)
                 import z3 as _z3
                 fresh = _z3.Solver()
-                fresh.set("timeout", int(per_path * 500))
+                fresh.set("timeout", full_ms)
                 fresh.add(*solver.assertions())
                 r = fresh.check(*a)
                 stats["fresh_solver_retries"] = stats.get("fresh_solver_retries", 0) + 1
                 if r == _z3.unknown:
+                    try:
+                        r3 = _sat(solver, *a)
+                        stats["stage3_decided"] = stats.get("stage3_decided", 0) + 1
+                        return r3
+                    except _ss.UnknownSatisfiability:
+                        pass
                     u = stats.setdefault("unknowns", [])
                     if len(u) < 8:
                         u.append({"exc": "UnknownSatisfiability", "reason": fresh.reason_unknown(), "fresh": True,
